@@ -119,6 +119,10 @@ void h_run(Ctx &c)
 		bool big = c.feat(2) && !t.enumerating && t.weighted({ 8, 1 }) == 1;
 		if (big) {
 			n = t.weighted({ 6, 1 }) == 0 ? BIG[t.choose(sizeof BIG / sizeof *BIG)] : HUGE[t.choose(sizeof HUGE / sizeof *HUGE)];
+			if (n > 65000 && t.weighted({ 80, 1 }) == 1) { // and, very rarely, megabytes ("every byte array")
+				n = t.flip() ? (1u << 20) + 3 : (5u << 20) + 5;
+				c.cls("dump-of-a-megabyte-or-more");
+			}
 			if (n > 65000)
 				c.cls("dump-of-65535-bytes-or-more");
 			c.cls("dump-of-256-bytes-or-more");
@@ -199,6 +203,19 @@ void h_run(Ctx &c)
 			if (kind == 1) {
 				text += WS[t.choose(4)];
 				text += "\n";
+				if (c.feat(2) && !t.enumerating && t.weighted({ 30, 1 }) == 1) {
+					// "arbitrary white space": a long run of blank lines between two data lines
+					static const unsigned RUN[] = { 254, 255, 256, 999, 1000, 1001, 1024, 2500 };
+					unsigned run = RUN[t.choose(sizeof RUN / sizeof *RUN)];
+					const char *ws = WS[t.choose(4)];
+					for (unsigned k = 0; k < run; k++) {
+						text += ws;
+						text += "\n";
+					}
+					c.cls("run-of-254-or-more-blank-lines");
+					if (run >= 999)
+						c.cls("run-of-999-or-more-blank-lines");
+				}
 				continue;
 			}
 			if (prefix) {
@@ -239,7 +256,8 @@ void h_run(Ctx &c)
 			if (l + 1 < nlines || t.flip())
 				text += "\n";
 		}
-		c.note("grammar text (%s address prefix): \"%s\"", prefix ? "with" : "without", printable(text).c_str());
+		if (c.want_log)
+			c.note("grammar text (%s address prefix): \"%s\"%s", prefix ? "with" : "without", printable(text.substr(0, 600)).c_str(), text.size() > 600 ? "..." : "");
 		ah_begin(text.data(), text.size());
 		std::vector<int> got;
 		if (!drain(c, text, got, false))
@@ -250,7 +268,7 @@ void h_run(Ctx &c)
 				g += std::to_string(v) + " ";
 			for (int v : exp)
 				e += std::to_string(v) + " ";
-			c.fail("text \"%s\" parsed as [%s], constructed from [%s]", printable(text).c_str(), g.c_str(), e.c_str());
+			c.fail("text \"%s\"%s parsed as [%s], constructed from [%s]", printable(text.substr(0, 600)).c_str(), text.size() > 600 ? "... (long run of blank lines elided)" : "", g.c_str(), e.c_str());
 		}
 		c.cls(prefix ? "grammar-with-prefix" : "grammar-without-prefix");
 		if (nlines >= 2 && prefix) {
